@@ -23,7 +23,7 @@
    The remaining side conditions are necessary: `initial` naming a history pseudo-state (F35), a history default target that
    is itself a history pseudo-state (F36) or lies outside the history state's parent (F37) each make the code leave an
    illegal configuration - kernel-checked witnesses below, recorded findings. *)
-From XSM Require Import Model.Macro Model.Snap Proofs.LegalP Proofs.ExecP Proofs.FaultP Proofs.StepP Proofs.DescentP Proofs.EffectP Proofs.PreserveP Proofs.InvariantP Proofs.SelectP Proofs.HistoryP Proofs.InvariantHP Proofs.SortP Proofs.IdP Proofs.GeomBridge Proofs.SourceGeomP Model.TreeLib Gen.GenTree Gen.GenGeom.
+From XSM Require Import Model.Macro Model.Snap Proofs.LegalP Proofs.ExecP Proofs.FaultP Proofs.StepP Proofs.DescentP Proofs.EffectP Proofs.PreserveP Proofs.InvariantP Proofs.SelectP Proofs.HistoryP Proofs.InvariantHP Proofs.SortP Proofs.IdP Proofs.GeomBridge Proofs.SourceGeomP Proofs.SourceStepP Model.TreeLib Gen.GenTree Gen.GenGeom.
 From Coq Require Import Permutation.
 
 Theorem C01_legal_is_the_definition : forall m C, legal m C = true <-> Legal m C.
@@ -242,6 +242,26 @@ Theorem C01_source_root_transition_restarts : forall m, ancestry_side_ok m = tru
 Proof. exact source_root_transition_legal. Qed.
 Print Assumptions C01_source_root_transition_restarts.
 
+(* ... and one whole EVENT: `process_event_src` selects with the re-translated _select_transitions (each guard through the
+   model's evaluation of it) and executes every selected transition with the re-translated geometry.  On every state that
+   satisfies the run invariant - hence on every state of every run - and whenever every consulted guard answers (no missing
+   implementation), it is the model's `process_event`; so the event step AS THE SOURCE DECIDES IT keeps the configuration
+   legal and the history store consistent.  What stays hand-modelled in this step are the effects (entering, exiting, running
+   actions, queues, scheduling), tied to the code by the K-macro correspondence. *)
+Theorem C01_event_step_is_the_source : forall m, ancestry_side_ok m = true -> twf m = true -> good_initials m = true ->
+  safe_targets_h m -> forall eng pr ev s,
+  Legal m (s_cfg s) /\ HistOK m (s_hist s) -> (forall t, passes m (s_cfg s) (s_ctx s) t <> None) ->
+  process_event_src eng pr m ev s = process_event eng pr m ev s.
+Proof. exact process_event_src_eq. Qed.
+Print Assumptions C01_event_step_is_the_source.
+
+Theorem C01_source_event_preserves_legality : forall m, ancestry_side_ok m = true -> twf m = true -> good_initials m = true ->
+  safe_targets_h m -> forall eng pr ev s,
+  Legal m (s_cfg s) /\ HistOK m (s_hist s) -> (forall t, passes m (s_cfg s) (s_ctx s) t <> None) ->
+  Legal m (s_cfg (fst (process_event_src eng pr m ev s))) /\ HistOK m (s_hist (fst (process_event_src eng pr m ev s))).
+Proof. exact process_event_src_inv. Qed.
+Print Assumptions C01_source_event_preserves_legality.
+
 (* steps that keep the configuration *)
 Theorem C01_unhandled_keeps : forall eng pr m ev s,
   select m (s_cfg s) (s_ctx s) ev = Some [] -> process_event eng pr m ev s = (s, None).
@@ -329,6 +349,13 @@ Example C01_translated_geometry_computes :
   GenGeom.resolve_history_target f34 (s_hist s1) 1 = [6; 3] /\
   GenGeom.get_path_to_state f34 3 (Some 0) = [2; 3] /\ GenGeom.get_ancestors f34 6 = [6; 5; 0] /\
   GenGeom.find_transition_domain f34 3 4 = Some 2 /\ GenGeom.find_transition_domain f34 3 0 = None.
+Proof. vm_compute. repeat split; reflexivity. Qed.
+Example C01_source_event_computes :
+  let s0 := fst (sync_start f34 (st_init [])) in
+  let s1 := fst (sync_send f34 (Build_event "GO" EPlain 0) s0) in
+  twf f34 = true /\ safe_targets_hb f34 = true /\
+  s_cfg (fst (process_event_src Sync true f34 (Build_event "BACK" EPlain 0) s1)) = [0; 5; 6; 2; 3] /\
+  process_event_src Sync true f34 (Build_event "BACK" EPlain 0) s1 = process_event Sync true f34 (Build_event "BACK" EPlain 0) s1.
 Proof. vm_compute. repeat split; reflexivity. Qed.
 Example C01_source_transition_computes :
   let s0 := fst (sync_start f34 (st_init [])) in
